@@ -2,12 +2,10 @@
 
 from __future__ import annotations
 
-import ast
 import itertools
 from fractions import Fraction as F
 
 from sa import term as T
-from sa.cfg import CFG
 from sa.interp import SObj, SVar
 from sa.kernel import P, make_param, run_kernel
 from sa.load import AnalysisError, Repo, loc
@@ -21,13 +19,6 @@ from .common import eq_term, events, returns, show
 MOD = 'chopper.disk_chopper'
 
 
-def norm(node) -> str:
-    return ast.unparse(node).replace(' ', '')
-
-
-def stmts(fn) -> list[str]:
-    return [norm(s) for s in ast.walk(fn) if isinstance(s, ast.stmt)
-            and not isinstance(s, ast.FunctionDef | ast.If | ast.For | ast.Try | ast.With | ast.While)]
 
 
 def S(n, pos=False):
